@@ -381,6 +381,11 @@ pub(crate) fn perform_shard_maintenance<K, V, H>(
 
   // 3. Apply the writes.
   for (key, cost) in writes {
+    // The entry may have been removed, expired or evicted since its Write event was
+    // queued: the policy must not start tracking a key that is not resident.
+    if !shard.map.read().contains_key(&key) {
+      continue;
+    }
     let decision = policy.on_admit(&key, cost);
 
     if let AdmissionDecision::AdmitAndEvict(victims) = decision {
